@@ -34,6 +34,9 @@ import Pandora.Proofs.C18Hook
 import Pandora.Proofs.C18Valid
 import Pandora.Proofs.C18Nest
 import Pandora.Proofs.C18Over
+import Pandora.Proofs.C18R6
+import Pandora.Proofs.C18R6Err
+import Pandora.Gen.Config
 
 namespace Pandora.Props.C18
 open Pandora.Model.C18 Pandora.Spec.C18 Pandora.Proofs.C18
@@ -833,6 +836,129 @@ theorem C18_overlay_zerofields_partial (d : OCfg) (u : OSet) (f : Nat) (hu : sca
 
 end Over
 
+/-! ### round 6: where an error result can come from; the requested forms; the glue around the core, semantically -/
+
+/-- **error source**: an error result — and a panic carrying an error — of ANY operation (every `New`, `NewFactory`, every
+call of a factory of either form) is the error of an invocation of user code that the fault plan makes fail AND that has
+an error result at all (`planned`: a given fillConf; the registered constructor if it has an error result; the registered
+factory if it has one) — and nothing else.  For every shape, form, world, k.  (`C18_errors` is the converse direction: a
+failing invocation ends the operation with its error.) -/
+theorem C18_error_source (inp : Input) (obs : Obs) (h : run inp = some obs) :
+    ∀ s ∈ obs.steps, ∀ e, (s.res = .err e ∨ s.res = .panic e) → planned inp.sh inp.w e = true := by
+  obtain ⟨_, rfl⟩ := run_eq_phase h
+  exact src_phase inp _
+
+/-- … for a creation started in ANY state (so: every creation of a history) -/
+theorem C18_error_source_phase (inp : Input) (st : St) :
+    ∀ s ∈ (phaseObs inp st).steps, ∀ e, (s.res = .err e ∨ s.res = .panic e) → planned inp.sh inp.w e = true :=
+  src_phase inp st
+
+/-- **no error result, no error**: when neither the registered constructor nor the factory it returns has an error result
+and fillConf (if given) does not fail, EVERY operation succeeds — whatever the component is (its implementation type may
+itself implement `error`: the registry must not mistake a constructor's only result for an error) -/
+theorem C18_no_error_result (inp : Input) (obs : Obs) (h : run inp = some obs)
+    (hc : inp.sh.ctorErr = false) (hf : inp.sh.factErr = false)
+    (hfill : inp.w.hasFill = false ∨ ∀ i, inp.w.fillFault i = false) :
+    ∀ s ∈ obs.steps, s.res = .made ∨ ∃ p, s.res = .ok p := by
+  intro s hs
+  have hsrc := C18_error_source inp obs h s hs
+  have hno : ∀ e, planned inp.sh inp.w e = false := by
+    intro e
+    cases e with
+    | fill i => rcases hfill with h1 | h1 <;> simp [planned, h1]
+    | ctor i => simp [planned, hc]
+    | fact i => simp [planned, hf]
+  cases hres : s.res with
+  | made => exact .inl rfl
+  | ok p => exact .inr ⟨p, rfl⟩
+  | err e => have := hsrc e (.inl hres); rw [hno e] at this; exact absurd this (by simp)
+  | panic e => have := hsrc e (.inr hres); rw [hno e] at this; exact absurd this (by simp)
+
+open Pandora.Model.C18Ty Pandora.Model.C18Reg in
+/-- **requested forms, as Go types**: for EVERY Go type `t` and name, the expectations `NewFactory` checks before anything
+else (regenerated from the source) hold iff `t` is `func() (X [, error])` with `X` an interface type and the name is not
+empty — so also what `LookupFactory` / `FactoryPluginType` / the config hook `FactoryHook` take as a factory type; those of
+`New` hold iff `t` is an interface type and the name is not empty; the two factory forms of the model are such types, with
+the model's number of results, asking for the plugin interface -/
+theorem C18_requested_forms (t : Ty) (name : String) :
+    (Pandora.Gen.Plugin.newFactoryExpects t name).all id = (requestedOk t && name != "") ∧
+    (Pandora.Gen.Plugin.newExpects t name).all id = (t.kind == .iface && name != "") ∧
+    Pandora.Gen.Plugin.isFactoryType t = requestedOk t ∧
+    requestedOk (formTy 1) = true ∧ requestedOk (formTy 2) = true ∧
+    (formTy 1).numOut = Form.facNoErr.numOut ∧ (formTy 2).numOut = Form.facErr.numOut :=
+  ⟨Pandora.Proofs.C18R6.newFactoryExpects_eq t name, Pandora.Proofs.C18R6.newExpects_eq t name,
+   Pandora.Proofs.C18R6.isFactoryType_eq t, Pandora.Proofs.C18R6.forms_requested.1,
+   Pandora.Proofs.C18R6.forms_requested.2.1, Pandora.Proofs.C18R6.forms_requested.2.2.1,
+   Pandora.Proofs.C18R6.forms_requested.2.2.2.1⟩
+
+open Pandora.Model.C18Ty Pandora.Model.C18Reg Pandora.Model.C18Hook Pandora.Proofs.C18Hook in
+/-- **composition: a factory-typed config field through `FactoryHook`**.  `FactoryHook` first asks
+`LookupFactory(t)` = `isFactoryType(t) && Lookup(t.Out(0))` (regenerated: `lookupFactory_steps`, `hook_steps`); composing the
+regenerated `isFactoryType` with the hook model: for EVERY Go type `t` of the field and every set `registered` of plugin
+types that own a name table — a field whose type is not `func() (Interface [, error])`, or whose interface has no
+registered plugin, gets its data back untouched (no user code, no error); otherwise well-formed data reach `NewFactory`
+with the parsed non-empty name and the settings without the `type` key, and ill-formed data end with the error result -/
+theorem C18_factory_hook (registered : Ty → Bool) (t : Ty) (dk : DataKind) (nsk : Bool) (data : List KV) :
+    ((requestedOk t = false ∨ registered (requestedPlugin t) = false) →
+      hook true (Pandora.Gen.Plugin.isFactoryType t && registered (requestedPlugin t)) dk nsk data = .pass) ∧
+    (requestedOk t = true → registered (requestedPlugin t) = true →
+      (∀ name, WellFormed true dk nsk data name →
+        hook true (Pandora.Gen.Plugin.isFactoryType t && registered (requestedPlugin t)) dk nsk data =
+          .create name (data.filter fun kv => !isTypeKey kv.key) ∧ name ≠ "") ∧
+      ((¬ ∃ name, WellFormed true dk nsk data name) →
+        hook true (Pandora.Gen.Plugin.isFactoryType t && registered (requestedPlugin t)) dk nsk data = .parseErr)) := by
+  rw [Pandora.Proofs.C18R6.isFactoryType_eq]
+  refine ⟨fun h => ?_, fun h1 h2 => ?_⟩
+  · have : (requestedOk t && registered (requestedPlugin t)) = false := by
+      rcases h with h | h <;> simp [h]
+    rw [this]
+    exact (C18_hook false dk nsk data).1 rfl
+  · rw [h1, h2]
+    exact ⟨(C18_hook true dk nsk data).2.1 rfl, (C18_hook true dk nsk data).2.2.1 rfl⟩
+
+open Pandora.Model.C18Over in
+/-- **composition with the config decoder as C17 reads it** (`Gen/Config.lean`, the regenerated definitions of property C17,
+imported read-only; area `config` is regenerated by `./check C18` as well): the chain config file → decoder → plugin hooks →
+registry.  (1) `coreimport.Import` installs `pluginconfig.AddHooks()`, which adds exactly `Hook` and `FactoryHook`, and they
+end in `plugin.New` / `plugin.NewFactory` with the parsed name and fillConf (C17's reading) — the hooks `C18_hook` /
+`C18_factory_hook` speak about; (2) the fillConf they pass is `config.DecodeAndValidate` = Decode, then Validate (C17's
+reading of the closure and of the function) — the world of `C18_validate`; (3) with the decoder flags AS C17 REGENERATES
+THEM every field of the decoded configuration is the user's value where the settings name it and the registered default
+otherwise (`C18_overlay` over C17's `zeroFields`), unknown keys are errors, no weak typing; and the two independent
+readings of the flags (C17's and C18's) agree. -/
+theorem C18_config_composition (d : OCfg) (u : OSet) (f : Nat) :
+    "pluginconfig.AddHooks()" ∈ Pandora.Gen.Config.importHooks ∧
+    Pandora.Gen.Config.pluginHooks = ["Hook", "FactoryHook"] ∧
+    Pandora.Gen.Config.pluginHookCalls =
+      ["Hook: plugin.New(t, name, fillConf)", "FactoryHook: plugin.NewFactory(t, name, fillConf)"] ∧
+    "x13 := config.DecodeAndValidate(x6, x12)" ∈ Pandora.Gen.Config.fillConfStmts ∧
+    Pandora.Gen.Config.fillConfReturns = ["return x13"] ∧
+    Pandora.Gen.Config.decodeAndValidateStmts = ["x2 := Decode(x0, x1)", "if x2 != nil {", "return x2", "}", "return Validate(x1)"] ∧
+    sem (decode Pandora.Gen.Config.zeroFields d u) f = overlaid d u f ∧
+    Pandora.Gen.Config.errorUnused = true ∧ Pandora.Gen.Config.weaklyTypedInput = false ∧
+    Pandora.Gen.Config.zeroFields = Pandora.Gen.Plugin.decoderZeroFields ∧
+    Pandora.Gen.Config.errorUnused = Pandora.Gen.Plugin.decoderErrorUnused ∧
+    Pandora.Gen.Config.weaklyTypedInput = Pandora.Gen.Plugin.decoderWeaklyTyped := by
+  refine ⟨by decide, by decide, by decide, by decide, by decide, by decide, ?_, by decide, by decide, by decide, by decide,
+    by decide⟩
+  have hz : Pandora.Gen.Config.zeroFields = false := by decide
+  rw [hz]
+  exact Pandora.Proofs.C18Over.overlay d u f
+
+/-- **the result conversion of the source IS the model's** (semantic tie): the decision table obtained by evaluating
+`convertFactoryOutParams` for every requested arity, callee arity and nil / non-nil error equals `convertOut`: an ok result
+stays, a nil error is appended or dropped, a non-nil error is the error result when the requested form has one and a panic
+carrying it when not; and a config error inside the closure of a component-constructor factory becomes a panic carrying
+it for `func() Plugin`, the error result for `func() (Plugin, error)` — never a call of the constructor -/
+theorem C18_convert (numOut outLen : Nat) (p : Product) (e : Err) :
+    convertOut numOut outLen (.ok p) = .ok p ∧
+    convertOut numOut outLen (.error e) = (if numOut < outLen then .panic e else .err e) ∧
+    (∀ n ∈ [1, 2], ∀ l ∈ [1, 2], ∀ errNil ∈ [true, false], (l = 1 → errNil = true) →
+      Pandora.Proofs.C18R6.convOutcome n l errNil = Pandora.Proofs.C18R6.modelOutcome n l errNil) ∧
+    Pandora.Gen.Plugin.confErrTable = [(1, "panic:err"), (2, "ret:zero,err"), (3, "panic:other")] :=
+  ⟨(Pandora.Proofs.C18R6.convertOut_spec numOut outLen p e).1, (Pandora.Proofs.C18R6.convertOut_spec numOut outLen p e).2,
+   Pandora.Proofs.C18R6.convert_sem.1, Pandora.Proofs.C18R6.confErr_sem⟩
+
 /-! ### non-vacuity: concrete inputs that meet the hypotheses and exercise every branch of the statements -/
 
 /-- defaults 5/6/7 on fields 1..3, the user sets field 2 to 9 -/
@@ -1048,5 +1174,28 @@ example : (allFields.map fun f => sem (decode true exOD exOU) f) =
 example : flatSet allFields exOU = [(3, 24), (22, 9), (24, 6), (9, 80), (11, 1), (12, 5), (14, 2), (23, 40), (25, 0), (27, 0)] := by decide
 example : scalarOnly { OSet.none with a := .val 3 } := by simp [scalarOnly, OSet.none]
 end OverEx
+
+/-! ### round 6: non-vacuity -/
+
+open Pandora.Model.C18Ty Pandora.Model.C18Reg Pandora.Model.C18Hook in
+/-- `C18_factory_hook`: a `func() (Plugin, error)` field with `{type: x, a: 5}` when the plugin interface has plugins -/
+example : requestedOk (formTy 2) = true ∧
+    hook true (Pandora.Gen.Plugin.isFactoryType (formTy 2) && (fun t => t == plugT) (requestedPlugin (formTy 2))) .strMap false
+      [⟨['t', 'y', 'p', 'e'], true, "x"⟩, ⟨['a'], false, "5"⟩] = .create "x" [⟨['a'], false, "5"⟩] := by decide
+
+/-- non-vacuity (round 6): a constructor without error results whose fillConf never fails — every step succeeds; with an
+error result and a fault plan the second call's error is a planned one -/
+example : (run { exFresh with sh := { exFresh.sh with ctorErr := false } }).map (fun o => o.steps.map fun s => match s.res with
+      | .made => 0 | .ok _ => 1 | _ => 2) = some [0, 1, 1, 1] := by decide
+example : planned (exErr .facErr).sh (exErr .facErr).w (.ctor 1) = true ∧
+    planned (exErr .facErr).sh (exErr .facErr).w (.ctor 0) = false ∧
+    planned { (exErr .facErr).sh with ctorErr := false } (exErr .facErr).w (.ctor 1) = false := by decide
+open Pandora.Model.C18Ty Pandora.Model.C18Reg in
+/-- requested types: `func() (Plugin, error)` is one; `func() (Plugin, *E)` with `*E` implementing `error` is not, nor is
+`func() *Impl` or `func(Conf) Plugin` -/
+example : requestedOk (formTy 2) = true ∧
+    requestedOk (.func .nil (.cons plugT (.cons (.ptr (.base .struct 7 []) [0]) .nil))) = false ∧
+    requestedOk (.func .nil (.cons implT .nil)) = false ∧
+    requestedOk (.func (.cons confT .nil) (.cons plugT .nil)) = false := by decide
 
 end Pandora.Props.C18
